@@ -70,7 +70,9 @@ def run(tier, seed):
         variants = []
         # directly after a string literal only blanks are placed: a comment or directive there runs into
         # known finding D2 (emitted twice by the preprocessor), which PpLex/C06 decides on its own
-        after_str = {p for p in range(n) if tk[p].startswith('"')}
+        # (the same holds directly after an escaped identifier - D2 covers both; seed 11 met `define there, whose
+        #  duplicate loses its line break and swallows the rest of the line)
+        after_str = {p for p in range(n) if tk[p].startswith('"') or tk[p].startswith("\\")}
         BL = ("sp", "ht", "ff", "nl", "crlf")
 
         def prev_kind(p):
